@@ -191,7 +191,11 @@ func (c *c07Case) Exec() {
 	root := filepath.Join(cd, "wal")
 	must(os.MkdirAll(root, 0755))
 	ackPath := filepath.Join(cd, "ACK")
-	events, out, err := runTraced("c07wl", walChildArgs{Cfg: c.Cfg, Ops: c.Ops, Dir: root, Ack: ackPath}, root, ackPath, filepath.Join(cd, "trace.txt"), 60*time.Second)
+	events, out, err := runTraced("c07wl", walChildArgs{Cfg: c.Cfg, Ops: c.Ops, Dir: root, Ack: ackPath}, root, ackPath, filepath.Join(cd, "trace.txt"), 60*time.Second,
+		func() { os.RemoveAll(root); must(os.MkdirAll(root, 0755)) })
+	if err != nil && straceTrouble(err.Error()) {
+		return // the tracer failed: the crash stage of this case is skipped (the program stage above stands)
+	}
 	if err != nil {
 		c.Fatal = "trace: " + err.Error() + " " + out
 		return
